@@ -153,7 +153,17 @@ fn cfgs() -> Vec<Cfg> {
     // hook 6 = no hook, but the Runner is built, THEN the harness waits 12 ms, then runs it with a time limit of 8 ms: the
     // limit is about the run, not about the age of the Runner value
     v.push(Cfg { iter_limit: 5, node_limit: 10_000, time_zero: false, hook: 6 });
+    // hook 7 = a hook that SHRINKS the e-graph (it unions neighbouring classes, parents then coincide): a node limit that the
+    // rewrites of an iteration exceeded but the final e-graph does not is not a true stop reason
+    for node_limit in [3usize, 4, 5, 6, 7, 8, 10, 12] {
+        v.push(Cfg { iter_limit: 5, node_limit, time_zero: false, hook: 7 });
+    }
     v
+}
+
+fn eqsat_cfgs() -> Vec<Cfg> {
+    // run_eqsat has no node limit: the configurations with node_limit == 10_000 and an ordinary hook only
+    cfgs().into_iter().filter(|c| c.node_limit == 10_000 && c.hook < 6).collect()
 }
 
 const DELAYED_LIMIT_MS: u64 = 8;
@@ -228,6 +238,7 @@ fn run_runner(start: &T, rules_idx: &[usize], c: Cfg) -> (Vec<Fail>, u64, u64, V
     let calls = std::rc::Rc::new(std::cell::Cell::new(0usize));
     let cl = calls.clone();
     let hookno = c.hook;
+    let shrunk = std::rc::Rc::new(std::cell::Cell::new(false));
     let t_start = std::time::Instant::now();
     let run_started: std::rc::Rc<std::cell::Cell<Option<std::time::Instant>>> = Default::default();
     let run_started2 = run_started.clone();
@@ -238,6 +249,26 @@ fn run_runner(start: &T, rules_idx: &[usize], c: Cfg) -> (Vec<Fail>, u64, u64, V
         if hookno == 6 {
             std::thread::sleep(Duration::from_millis(12));
             run_started.set(Some(std::time::Instant::now()));
+        }
+        if hookno == 7 {
+            let sh = shrunk.clone();
+            let lim = c.node_limit;
+            runner = runner.with_hook(move |r: &mut Runner<Ar, (), (), String>| {
+                let before = r.egraph.total_number_of_nodes();
+                let mut all: Vec<Id> = r.egraph.ids();
+                all.sort();
+                for w in all.windows(2) {
+                    if r.egraph.is_alive(w[0]) && r.egraph.is_alive(w[1]) {
+                        let (a, b) = (r.egraph.mk_identity_applied_id(w[0]), r.egraph.mk_identity_applied_id(w[1]));
+                        r.egraph.union(&a, &b);
+                    }
+                }
+                let after = r.egraph.total_number_of_nodes();
+                if before > lim && after <= lim {
+                    sh.set(true);
+                }
+                Ok(())
+            });
         }
         if hookno > 0 && hookno < 6 {
             runner = runner.with_hook(move |r: &mut Runner<Ar, (), (), String>| {
@@ -269,6 +300,9 @@ fn run_runner(start: &T, rules_idx: &[usize], c: Cfg) -> (Vec<Fail>, u64, u64, V
         Ok((mut runner, rep)) => {
             evals += 1;
             let nodes = runner.egraph.total_number_of_nodes();
+            if shrunk.get() {
+                goals |= 32;
+            }
             fps.push(fnv_str(&format!("{:?}|{}|{}", rep.stop_reason, rep.iterations, nodes)));
             if rep.egraph_nodes != nodes {
                 fails.push(("report-node-count".into(), format!("report.egraph_nodes {} != total_number_of_nodes {} {ctx}", rep.egraph_nodes, nodes), String::new()));
@@ -414,18 +448,18 @@ impl Prop for SaturateProp {
         let nc = cfgs().len() as u64;
         vec![
             Seg { name: "apply_rewrites: terms x rule-sets".into(), count: nt * nr, what: format!("one index = one of {nt} start terms x one of {nr} rule sets; up to 5 calls of apply_rewrites, independent fingerprint before/after each") },
-            Seg { name: "Runner::run: terms x rule-sets x limits x hooks".into(), count: nt * nr * nc, what: format!("one index = start term x rule set x one of {nc} configurations (iter_limit 0/1/2/5, node_limit 1/10/10000, time_limit 0/max, hook none/fail@1/fail@2/fail-at-8-nodes/mutating/mutating+fail@2)") },
-            Seg { name: "run_eqsat: terms x rule-sets x limits x hooks".into(), count: nt * nr * (nc / 3), what: "one index = start term x rule set x configuration (iter_limit, time_limit 0/max, hook) for run_eqsat".into() },
+            Seg { name: "Runner::run: terms x rule-sets x limits x hooks".into(), count: nt * nr * nc, what: format!("one index = start term x rule set x one of {nc} configurations (iter_limit 0/1/2/5, node_limit 1/10/10000, time_limit 0/max, hook none/fail@1/fail@2/fail-at-8-nodes/mutating/mutating+fail@2; a delayed start; a hook that shrinks the e-graph by unions under node limits 3..12)") },
+            Seg { name: "run_eqsat: terms x rule-sets x limits x hooks".into(), count: nt * nr * eqsat_cfgs().len() as u64, what: "one index = start term x rule set x configuration (iter_limit, time_limit 0/max, hook) for run_eqsat".into() },
         ]
     }
     fn replay_exempt(&self, f: &Failure) -> bool {
         f.kind == "untrue-stop-reason" && f.key.starts_with("TimeLimit reported")
     }
     fn goals(&self) -> Vec<&'static str> {
-        vec!["stop_saturated", "stop_iteration_limit", "stop_node_limit", "stop_time_limit", "stop_other_hook", "apply_rewrites_false_seen", "change_without_new_nodes"]
+        vec!["stop_saturated", "stop_iteration_limit", "stop_node_limit", "stop_time_limit", "stop_other_hook", "apply_rewrites_false_seen", "change_without_new_nodes", "hook_shrank_the_graph_from_above_the_node_limit_to_within_it"]
     }
     fn rule(&self) -> String {
-        "Start terms (binder-heavy specials, three-slot terms whose class gains symmetries stepwise, all terms of size <=2 (thorough 3)) x rule sets (each single rule of the 22-rule pool, 8 chosen pairs/triples, the full pool, the empty set). (1) apply_rewrites up to 5 times: whenever it returns false an independent fingerprint (node count, per-class slots / e-nodes / symmetry count by brute-force eq over all permutations, canonical form of every known invocation) taken before must equal the one taken after. (2) Runner::run and (3) run_eqsat under every combination of iter_limit 0/1/2/5, node_limit 1/10/10000, time_limit 0 / 2 s (far above what any enumerated run needs; the harness clock brackets the call) and hooks none / fail at call 1 / fail at call 2 / fail at 8 nodes / insert a new term on every call / insert and fail at call 2: report.egraph_nodes equals the e-graph's, iterations <= iter_limit+2, the stop reason is true of the final state (limit really exceeded, hook really failed, TimeLimit only with limit 0 or when the call really lasted that long), and after Saturated one more application of all rules changes nothing and every match of every rule already has equal sides. Non-trivial = runs, distinct states = (reason, iterations, nodes).".into()
+        "Start terms (binder-heavy specials, three-slot terms whose class gains symmetries stepwise, all terms of size <=2 (thorough 3)) x rule sets (each single rule of the 22-rule pool, 8 chosen pairs/triples, the full pool, the empty set). (1) apply_rewrites up to 5 times: whenever it returns false an independent fingerprint (node count, per-class slots / e-nodes / symmetry count by brute-force eq over all permutations, canonical form of every known invocation) taken before must equal the one taken after. (2) Runner::run and (3) run_eqsat under every combination of iter_limit 0/1/2/5, node_limit 1/10/10000, time_limit 0 / 2 s (far above what any enumerated run needs; the harness clock brackets the call) and hooks none / fail at call 1 / fail at call 2 / fail at 8 nodes / insert a new term on every call / insert and fail at call 2 / union neighbouring classes on every call (the e-graph shrinks; node limits 3..12): report.egraph_nodes equals the e-graph's, iterations <= iter_limit+2, the stop reason is true of the final state (limit really exceeded, hook really failed, TimeLimit only with limit 0 or when the call really lasted that long), and after Saturated one more application of all rules changes nothing and every match of every rule already has equal sides. Non-trivial = runs, distinct states = (reason, iterations, nodes).".into()
     }
     fn assumptions(&self) -> Vec<String> {
         vec!["time limits are only 0 or unbounded, the two values whose outcome does not depend on the wall clock".into()]
@@ -459,9 +493,7 @@ impl Prop for SaturateProp {
             0 => run_apply(&start, &rules, 5),
             1 => run_runner(&start, &rules, cfgs()[ci]),
             _ => {
-                // run_eqsat has no node limit: use the configurations with node_limit == 10_000 only
-                let cs: Vec<Cfg> = cfgs().into_iter().filter(|c| c.node_limit == 10_000).collect();
-                run_eqsat_cfg(&start, &rules, cs[ci])
+                run_eqsat_cfg(&start, &rules, eqsat_cfgs()[ci])
             }
         });
         match res {
@@ -472,7 +504,7 @@ impl Prop for SaturateProp {
                 out.fps = fps;
                 out.nontrivial = 1;
                 // map per-segment goal bits to the global goal list
-                out.goals = if seg == 0 { ((goals & 2) << 4) | ((goals & 4) << 4) } else { goals & 31 };
+                out.goals = if seg == 0 { ((goals & 2) << 4) | ((goals & 4) << 4) } else { (goals & 31) | ((goals & 32) << 2) };
                 out.outcomes.push(if fails.is_empty() { format!("truthful(seg{seg},goals={goals})") } else { fails[0].0.clone() });
                 let mut seen = BTreeSet::new();
                 for (k, key, d) in fails {
